@@ -340,6 +340,7 @@ RUN_BASE = [
     ("list_same_instant", ["once(18:00)", "cron(0 18 * * *)"], L(2020, 6, 15, 17), 2 * 86400),
 ]
 SKEWS = [0.0, -1e-3, -1e-6, 1e-3]
+PAD = 1807  # every window ends 30 min 7 s after its nominal length, away from any denoted instant
 OPS = ["none", "redefine", "remove", "stop"]
 TOL = 5e-3
 
@@ -349,8 +350,12 @@ def scenarios(tier):
     for name, specs, start, dur in RUN_BASE:
         for legacy in (False, True):
             nowbased = any("now" in s or s in ("startup", "shutdown") for s in specs)
+            dst_window = cal.real(start).astimezone(cal.TZ).utcoffset() != (cal.real(start) + dt.timedelta(seconds=dur + PAD)).astimezone(cal.TZ).utcoffset()
             for skew in SKEWS:
-                if skew and (tier == "quick" and name not in ("cron18_plain", "once18_plain", "period_hourly_plain", "once_subsecond", "period_now_end")):
+                # wall-clock skew is explored where the window has no DST change: next to a transition the code compares
+                # labels that are an hour apart in real time, which is the unspecified territory described in ASSUMPTIONS
+                if skew and (dst_window or (tier == "quick" and name not in (
+                        "cron18_plain", "once18_plain", "period_hourly_plain", "once_subsecond", "period_now_end"))):
                     continue
                 out.append(("trigger", name, legacy, skew, "none"))
             if nowbased or name in ("cron18_plain", "period_hourly_plain"):
@@ -481,6 +486,7 @@ def run_scenario(sc):
 
     mode, name, legacy, skew, op = sc
     _, specs, start, dur = [b for b in RUN_BASE if b[0] == name][0]
+    dur = dur + PAD
     loc = astral.location.Location(astral.LocationInfo("home", "", "US/Pacific", 32.87336, -117.22743))
     start_utc = cal.real(start)
     nowbased = any("now" in s for s in specs)
@@ -500,7 +506,7 @@ def run_scenario(sc):
             if runs is None:
                 return
             while seen < len(runs):
-                obs.append((w.now(), w.start_utc + dt.timedelta(seconds=w.elapsed()), runs[seen][0], runs[seen][1], id(runs)))
+                obs.append((w.now(), w.start_utc + dt.timedelta(seconds=w.elapsed()), runs[seen][0], runs[seen][1], id(runs), w.skew))
                 seen += 1
 
         def run_to(t_loop):
@@ -541,7 +547,7 @@ def run_scenario(sc):
             w.settle()
             # the run of the old definition's shutdown entry lands in the OLD list
             while seen < len(old_runs):
-                obs.append((w.now(), w.start_utc + dt.timedelta(seconds=w.elapsed()), old_runs[seen][0], old_runs[seen][1], id(old_runs)))
+                obs.append((w.now(), w.start_utc + dt.timedelta(seconds=w.elapsed()), old_runs[seen][0], old_runs[seen][1], id(old_runs), w.skew))
                 seen += 1
             second = (removed_at, w.now())
             seen = 0
@@ -555,7 +561,7 @@ def run_scenario(sc):
             w.reload()
             w.settle()
             while seen < len(old_runs):
-                obs.append((w.now(), w.start_utc + dt.timedelta(seconds=w.elapsed()), old_runs[seen][0], old_runs[seen][1], id(old_runs)))
+                obs.append((w.now(), w.start_utc + dt.timedelta(seconds=w.elapsed()), old_runs[seen][0], old_runs[seen][1], id(old_runs), w.skew))
                 seen += 1
             run_to(t0 + dur)
         elif op == "stop":
@@ -567,11 +573,11 @@ def run_scenario(sc):
             w.hass.bus.async_fire(EVENT_HOMEASSISTANT_STOP)
             w.settle()
             while seen < len(old_runs):
-                obs.append((w.now(), w.start_utc + dt.timedelta(seconds=w.elapsed()), old_runs[seen][0], old_runs[seen][1], id(old_runs)))
+                obs.append((w.now(), w.start_utc + dt.timedelta(seconds=w.elapsed()), old_runs[seen][0], old_runs[seen][1], id(old_runs), w.skew))
                 seen += 1
             run_to(t0 + dur * 0.6)
             while seen < len(old_runs):
-                obs.append((w.now(), w.start_utc + dt.timedelta(seconds=w.elapsed()), old_runs[seen][0], old_runs[seen][1], id(old_runs)))
+                obs.append((w.now(), w.start_utc + dt.timedelta(seconds=w.elapsed()), old_runs[seen][0], old_runs[seen][1], id(old_runs), w.skew))
                 seen += 1
         t_end = w.now()
         errors = [repr(e)[:200] for e in w.errors]
@@ -642,9 +648,17 @@ def judge(sc, specs, start, t_begin, t_defined, removed_at, second, t_end, obs, 
             exp = expected_instants(specs, startup, startup, end, loc)
         # instants within the tolerance of the window's end may or may not have run
         hard = [e for e in exp if e[1] <= cal.real(end) - dt.timedelta(seconds=1)]
-        got = [(o[3], o[1], o[0], o[2]) for o in timed]
+        got = [(o[3], o[1], o[0], o[2], o[5]) for o in timed]
+        if mode == "wait_until":
+            # a call made when no instant is left returns trigger_type 'none' at once (C15); only time results are instants
+            tail = [g for g in got if g[3] != "time"]
+            got = [g for g in got if g[3] == "time"]
+            if any(g[3] != "none" for g in tail) or (tail and len(got) < len(exp)):
+                problems.append(("wait-until-result", "time results, then 'none' only when no instant is left", [str(g[3]) for g in tail]))
         out_obs.append([(str(g[0]), str(g[2])) for g in got])
-        known = known_period_runs(specs, startup, end, loc) if mode == "trigger" else None
+        known = known_period_runs(specs, startup, end, loc)
+        if known is not None and mode == "wait_until":
+            known = known[:4]
         if known is not None and [k[0] for k in known] != [e[0] for e in exp if True][:len(known)] + [] and len(got) in (len(known), len(known) - 1) and all(
                 g[0] == k[0] and abs((g[1] - k[1]).total_seconds()) <= TOL for g, k in zip(got, known)) and not (
                 len(got) == len(exp) and all(abs((g[1] - e[1]).total_seconds()) <= TOL for g, e in zip(got, exp))):
@@ -662,10 +676,10 @@ def judge(sc, specs, start, t_begin, t_defined, removed_at, second, t_end, obs, 
                     else:
                         problems.append(("trigger-time", str(e[0]), str(g[0])))
                     break
-                late = (g[1] - e[1]).total_seconds() - (0 if not skew else -skew)
-                # wall clock = real + skew: the run must not start before the wall clock shows the instant (1 us tolerance of the code)
-                wall_late = (g[1] + dt.timedelta(seconds=skew) - e[1]).total_seconds()
-                if wall_late < -2e-6 or wall_late > TOL + abs(skew):
+                # wall clock = real + skew in effect at the run: the run must not start before the wall clock shows the instant
+                # (1 us tolerance of the code)
+                wall_late = (g[1] + dt.timedelta(seconds=g[4]) - e[1]).total_seconds()
+                if wall_late < -2e-6 or wall_late > TOL + abs(g[4]):
                     problems.append(("run-time", str(e[1]), str(g[1])))
                     break
     if errors:
